@@ -2,7 +2,9 @@
 // portfolios (EOAs "user" and "victim", executor contracts "A" and "B"), precompile calls reaching the
 // staking / cross-chain precompile through user->P, user->A->P, user->A->B->P with any of the four call
 // instructions at the last hop, share allowances set by the owners' own approveShares, the governance
-// switch set by MsgUpdateSwitchParams through the message router.
+// switch set by MsgUpdateSwitchParams through the message router.  The frames between the transaction and the
+// precompile may be reverted after the precompile returned (op field "fate"), validator 0 may be slashed by one half
+// (op "Slash": the staking keeper's Slash as the evidence handler calls it when a block begins).
 package caller
 
 import (
@@ -13,12 +15,14 @@ import (
 	"os"
 	"strings"
 	"testing"
+	"time"
 
 	sdkmath "cosmossdk.io/math"
 	storetypes "cosmossdk.io/store/types"
 	sdk "github.com/cosmos/cosmos-sdk/types"
 	distrkeeper "github.com/cosmos/cosmos-sdk/x/distribution/keeper"
 	distrtypes "github.com/cosmos/cosmos-sdk/x/distribution/types"
+	stakingtypes "github.com/cosmos/cosmos-sdk/x/staking/types"
 	govtypes "github.com/cosmos/cosmos-sdk/x/gov/types"
 	"github.com/ethereum/go-ethereum/common"
 
@@ -45,6 +49,9 @@ const (
 )
 
 var privKey = []byte{0xFE, 'c', '1', '0'}
+
+// sdk.DefaultPowerReduction of fxcore: one unit of consensus power = 100 FX
+var powerUnit = pcenv.Unit.MulRaw(100)
 
 type Adapter struct {
 	W      *world.W
@@ -98,6 +105,17 @@ func New(t *testing.T, c Consts) *Adapter {
 		extra := bal.Sub(pcenv.Unit.MulRaw(1000))
 		pcenv.Mustf(extra.IsPositive(), "account %s has only %s", n, bal)
 		pcenv.Must(w.App.BankKeeper.SendCoins(ctx, x.Bytes(), w.Key("c10/sink").AccAddress(), sdk.NewCoins(sdk.NewCoin(fxtypes.DefaultDenom, extra))))
+	}
+	// validator 0's stake is brought to a whole multiple of 400 FX (a third party's delegation), so that slashing
+	// one half of its consensus power (an integer number of 100 FX) twice halves its tokens exactly
+	val, err := w.App.StakingKeeper.GetValidator(ctx, e.Val[0])
+	pcenv.Must(err)
+	round := powerUnit.MulRaw(4)
+	if r := val.Tokens.Mod(round); !r.IsZero() {
+		filler := w.Key("c10/filler").AccAddress()
+		w.Fund(ctx, filler, 1000)
+		pcenv.Must(w.Handle(ctx, &stakingtypes.MsgDelegate{DelegatorAddress: filler.String(), ValidatorAddress: e.Val[0].String(),
+			Amount: sdk.NewCoin(fxtypes.DefaultDenom, round.Sub(r))}))
 	}
 	ctx = e.RewardBlock(ctx, 5000)
 	a.putN(ctx, 0)
@@ -253,6 +271,21 @@ func (a *Adapter) Apply(ctx sdk.Context, op graph.Op) (sdk.Context, string) {
 			return ctx, "rej"
 		}
 		return ctx, "ok"
+	case "Slash":
+		// the next block begins with evidence against validator 0: one half of its consensus power is slashed
+		val, err := w.App.StakingKeeper.GetValidator(ctx, a.E.Val[0])
+		pcenv.Must(err)
+		cons, err := val.GetConsAddr()
+		pcenv.Must(err)
+		nctx := ctx.WithBlockHeight(ctx.BlockHeight() + 1).WithBlockTime(ctx.BlockTime().Add(5 * time.Second))
+		power := val.Tokens.Quo(powerUnit).Int64()
+		if _, err = w.App.StakingKeeper.Slash(nctx, cons, nctx.BlockHeight(), power, sdkmath.LegacyNewDecWithPrec(5, 1)); err != nil {
+			if a.debug {
+				fmt.Println("DEBUG Slash:", err)
+			}
+			return ctx, "rej"
+		}
+		return nctx, "ok"
 	case "Approve":
 		o, s, n := op.Str("o"), op.Str("s"), op.Int("n")
 		br, write := ctx.CacheContext()
@@ -266,7 +299,7 @@ func (a *Adapter) Apply(ctx sdk.Context, op graph.Op) (sdk.Context, string) {
 		write()
 		return ctx, "ok"
 	case "Call":
-		m, chain, kind, naming := op.Str("m"), op.Str("chain"), op.Str("kind"), op.Str("naming")
+		m, chain, kind, naming, fate := op.Str("m"), op.Str("chain"), op.Str("kind"), op.Str("naming"), op.Str("fate")
 		c := callerOf(chain)
 		nm := named(naming, c)
 		to, data, value := a.callData(m, c, nm)
@@ -276,7 +309,7 @@ func (a *Adapter) Apply(ctx sdk.Context, op graph.Op) (sdk.Context, string) {
 		br, write := ctx.CacheContext()
 		switch chain {
 		case "user->P":
-			pcenv.Mustf(kind == "CALL", "a transaction is a CALL")
+			pcenv.Mustf(kind == "CALL" && fate == "commit", "a transaction is a CALL whose frame is the transaction")
 			r, err := w.EthTx(br, user, &to, value, gasLimit, data)
 			if err != nil {
 				res, msg = false, err.Error()
@@ -288,11 +321,28 @@ func (a *Adapter) Apply(ctx sdk.Context, op graph.Op) (sdk.Context, string) {
 			if kind == "CALL" || kind == "CALLCODE" {
 				step.Value = value
 			}
+			// the direct caller's program: the precompile call, then STOP - or REVERT (fates "revert", "caught")
 			prog := evmasm.Program{Steps: []evmasm.Step{step}}
+			if fate == "revert" || fate == "caught" {
+				prog.End = evmasm.KindRevert
+			}
 			if chain == "user->A->B->P" {
-				prog = evmasm.Program{Steps: []evmasm.Step{{Kind: evmasm.KindCall, To: evmasm.Addr(a.addr["B"].Bytes()), Data: prog.Encode()}}}
+				// A calls B; A catches B's failure ("caught") or reverts itself after B completed ("outer")
+				prog = evmasm.Program{Steps: []evmasm.Step{{Kind: evmasm.KindCall, Catch: fate == "caught", To: evmasm.Addr(a.addr["B"].Bytes()), Data: prog.Encode()}}}
+				if fate == "outer" {
+					prog.End = evmasm.KindRevert
+				}
+			} else {
+				pcenv.Mustf(fate == "commit" || fate == "revert", "fate %s needs two contracts", fate)
 			}
 			res, msg = w.EthCall(br, user, a.addr["A"], gasLimit, prog.Encode())
+			if fate == "caught" {
+				// the transaction completes, the frame that called the precompile was reverted: the call did not take place
+				if !res && a.debug {
+					fmt.Printf("DEBUG %v: the catching transaction failed: %s\n", op, msg)
+				}
+				res, msg = false, "frame reverted (caught): "+msg
+			}
 		}
 		if !res {
 			if a.debug {
@@ -444,7 +494,19 @@ func (a *Adapter) Project(ctx sdk.Context) any {
 			sw = append(sw, name)
 		}
 	}
-	return map[string]any{"fx": fx, "frac": frac, "tok": tok, "coin": coin, "sh": sh, "sh1": sh1, "rew": rew, "allow": allow,
+	// validator 0's exchange rate: delegator shares = 2^slashed * tokens
+	slashed := int64(bad)
+	if val, err := w.App.StakingKeeper.GetValidator(ctx, e.Val[0]); err == nil && val.Tokens.IsPositive() {
+		t := sdkmath.LegacyNewDecFromInt(val.Tokens)
+		for k := int64(0); k <= 8; k++ {
+			if t.Equal(val.DelegatorShares) {
+				slashed = k
+				break
+			}
+			t = t.MulInt64(2)
+		}
+	}
+	return map[string]any{"slashed": slashed, "fx": fx, "frac": frac, "tok": tok, "coin": coin, "sh": sh, "sh1": sh1, "rew": rew, "allow": allow,
 		"ubd": ubd, "red": red, "pool": pool, "calls": calls, "parked": parked, "switch": sw, "ncall": a.getN(ctx)}
 }
 
